@@ -508,25 +508,14 @@ theorem total_59F (s : Text) : F59F.parse s ≠ .panic := by
     | simp
 
 theorem total_50F (s : Text) : F50F.parse s ≠ .panic := by
+  have hmid : ∀ m, F50F.mid m ≠ .panic := by
+    intro m; unfold F50F.mid; repeat' split
+    all_goals simp
   unfold F50F.parse
-  simp only
-  split; · simp
-  split; · simp
-  split; · simp
-  split; · simp
-  split; · simp
-  split
-  · simp
-  · rename_i hh; exact absurd hh (parseBic_no_panic _)
-  · split
-    · simp
-    · rename_i hh
-      split at hh
-      · repeat' split at hh
-        all_goals simp at hh
-      · simp at hh
-    · repeat' split
-      all_goals simp
+  repeat' split
+  all_goals first
+    | (rename_i hh; first | exact absurd hh (parseBic_no_panic _) | exact absurd hh (hmid _))
+    | simp
 
 /-! ### every field model of the registry at once
 
